@@ -1341,18 +1341,34 @@ class VM:
                 arr._elements.insert(i, arg)
             return arr.length
 
+        def to_str(value):
+            """ToString; objects (nested arrays too) go through ToPrimitive."""
+            if isinstance(value, JSObject):
+                value = vm._to_primitive(value, "string")
+            return to_string(value)
+
         def array_elem_to_string(elem):
             # undefined and null convert to empty string in array join/toString
             if elem is UNDEFINED or elem is NULL:
                 return ""
-            return to_string(elem)
+            return to_str(elem)
+
+        def join_elements(sep):
+            joining = vm.__dict__.setdefault("_joining_arrays", [])
+            if any(other is arr for other in joining):
+                return ""  # cyclic reference: the inner occurrence is empty
+            joining.append(arr)
+            try:
+                return sep.join(array_elem_to_string(elem) for elem in arr._elements)
+            finally:
+                joining.pop()
 
         def toString_fn(*args):
-            return ",".join(array_elem_to_string(elem) for elem in arr._elements)
+            return join_elements(",")
 
         def join_fn(*args):
-            sep = "," if not args or args[0] is UNDEFINED else to_string(args[0])
-            return sep.join(array_elem_to_string(elem) for elem in arr._elements)
+            sep = "," if not args or args[0] is UNDEFINED else to_str(args[0])
+            return join_elements(sep)
 
         def map_fn(*args):
             callback = args[0] if args else None
@@ -1540,8 +1556,8 @@ class VM:
             # Default string comparison
             def default_compare(a, b):
                 # Convert to strings and compare
-                str_a = to_string(a)
-                str_b = to_string(b)
+                str_a = to_str(a)
+                str_b = to_str(b)
                 if str_a < str_b:
                     return -1
                 if str_a > str_b:
